@@ -1173,8 +1173,8 @@ Proof.
 Qed.
 
 (** GQL builds the same plan when there is nothing to misplace *)
-Lemma gql_plan_plain q : q_order q = [] -> q_skip q = None -> q_limit q = None -> gql_plan_of q = cypher_plan_of q.
-Proof. intros Ho Hs Hl. unfold gql_plan_of, cypher_plan_of. rewrite Ho, Hs, Hl. reflexivity. Qed.
+Lemma gql_plan_plain q items d : q_ret q = RPlain items d -> q_order q = [] -> q_skip q = None -> q_limit q = None -> gql_plan_of q = cypher_plan_of q.
+Proof. intros Hr Ho Hs Hl. unfold gql_plan_of, cypher_plan_of. rewrite Hr, Ho, Hs, Hl. reflexivity. Qed.
 
 (** * RETURN over rows whose cells hold ids in any vector kind (entity cells, or the generic Int64
     cells that SKIP / LIMIT / ORDER BY leave behind) *)
